@@ -279,7 +279,7 @@ namespace avel {
 
         [[nodiscard]]
         AVEL_FINL mask operator!=(Vector vec) const {
-            return mask{_mm512_cmp_ps_mask(content, vec.content, _CMP_NEQ_OS)};
+            return mask{_mm512_cmp_ps_mask(content, vec.content, _CMP_NEQ_UQ)};
         }
 
         [[nodiscard]]
